@@ -400,6 +400,13 @@ func execStore(t *testing.T, sc *ConcScenario, choose chooser) *execResult {
 		return res
 	}
 	s.releaseAll()
+	if leaked := s.leakedLocks(); len(leaked) > 0 {
+		res.viol = viol("deadlock", "a call returned while still holding %v: every later call that needs the lock blocks for ever", leaked)
+		res.outcome = "lock-leaked"
+		classifyConc(sc, recs, res.viol, init, nil)
+		abortProcessAfter(res)
+		return res
+	}
 	if cj != nil {
 		cj.log = append([]vos.Mut(nil), w.FS.Log()...)
 		cj.recs = append([]callRec(nil), recs...)
@@ -727,6 +734,19 @@ func c05Scenarios(tier string) []*ConcScenario {
 					scs = append(scs, sc)
 				}
 			}
+		}
+	}
+	// Two overlapping flushes (an explicit Flush next to the periodic one)
+	// with callers in between: the per-component flush locks serialise each
+	// component, not the commit as a whole.
+	for _, in := range []namedInit{inits[2], {"I6-K0K1-flushed-K4-unflushed", []Op{P(0, 1), P(1, 1), opF, P(4, 1)}}} {
+		for _, cl := range [][]Op{{P(0, 2)}, {P(0, 2), P(1, 2)}, {R(0), P(1, 2)}} {
+			c := cfgs[0]
+			ths := [][]Op{cl, {opF}, {opF}}
+			sc := &ConcScenario{Prop: "C05", Cfg: c, Init: in.ops, Threads: ths, Bound: bound, Exec: execStore}
+			sc.Name = fmt.Sprintf("c05/%s/%s/%s", c.String(), in.name, progString(ths))
+			sc.Desc = fmt.Sprintf("init %s [%s]; %s", in.name, opsString(in.ops), progString(ths))
+			scs = append(scs, sc)
 		}
 	}
 	return scs
